@@ -4,6 +4,7 @@ import Uom.Proofs.BodyEq.Temp
 import Uom.Proofs.BodyEq.Mixed
 import Uom.Gen.Sigs
 import Uom.Gen.Features
+import Uom.Proofs.BodyEq.Powi
 /-!
 # C17 — feature flags change what compiles, never what a compiled program computes
 
@@ -189,5 +190,21 @@ theorem src_twins_complementary (σ : Nat → Bool) (t : Bool) :
   ⟨σ feat_autoconvert, (src_gates σ t).1, (src_gates σ t).2.1⟩
 
 end Gates
+
+/-! ### tie to the source: the float `powi` does not touch anything that differs between `std` and `no_std`
+
+Finding F7 was exactly this function: `Float::powi` is the `llvm.powi` intrinsic with `std` (constant-folded
+through the host `pow` in optimised builds) and num-traits' software loop without.  The repaired body, regenerated
+on this run, calls only `One::one`, `Float::recip` (one IEEE division) and `num_traits::pow::pow` (the same
+multiplication loop in both configurations) — the theorem names every call it makes. -/
+section PowiConfigFree
+open Uom.Rx Uom.Gen.RxBody Uom.BodyEq.Powi
+
+theorem src_powi_float_config_free {α : Type} (one : α) (recip : α → α) (pow : α → Nat → α) (c : α) (e : Int) :
+    run (envPowi one recip pow) lib_ConversionFactor_Self_for_V_powi_Float [.host c, .int e] =
+      (.val (.host (if e = 0 then one else if e < 0 then pow (recip c) (-e).toNat else pow c e.toNat)), []) :=
+  powi_float_eq one recip pow c e
+
+end PowiConfigFree
 
 end Uom.C17
